@@ -41,6 +41,8 @@ var zzTargets = []string{
 	4: "2021-02-01 \"both\"\nExpenses:TBD Expenses:TBD 12 CHF\n",
 	// two placeholder bookings with the same amount; the likely account of the first is the counter-account of the second
 	5: "2021-02-01 \"migros\"\nAssets:Bank Expenses:TBD 80 CHF\nExpenses:Food Expenses:TBD 80 CHF\n",
+	// every token of the booking occurs in every training booking of two accounts (training 4): an exact tie at the prior
+	6: "2021-02-01 \"shop\"\nAssets:Bank Expenses:TBD 10 CHF\n",
 }
 
 func zzParseText(text, path string) (syntax.File, error) {
